@@ -84,8 +84,8 @@ pub fn strip_real(n: &Node) -> Node {
     }
 }
 
-pub const LR_STEPS: u64 = 300_000;
-pub const GLR_STEPS: u64 = 3_000_000;
+pub const LR_STEPS: u64 = 30_000;
+pub const GLR_STEPS: u64 = 1_000_000;
 
 pub fn is_step_panic(p: &crate::compile::PanicInfo) -> bool {
     p.message.contains(crate::dynp::STEP_PANIC)
